@@ -33,6 +33,9 @@ func verifC26CheckValidPath(p string) {
 		return
 	}
 	verifrt.Reach("c26-validpath-accepted")
+	verifrt.Known("C26-dotgit-exemption-trailing-backslash", verifrt.MergeBool(func() bool {
+		return verifc26.UnsafeOnlyByTrailingBackslashes(p, ntfs, hfs, verifc26.GuardLeading)
+	}))
 	unsafe := verifrt.MergeBool(func() bool { return verifc26.Unsafe(p, ntfs, hfs, verifc26.GuardLeading) })
 	verifrt.Assert(!unsafe, "c26-validpath-accepted-path-stays-inside")
 }
@@ -148,7 +151,7 @@ func (c *verifC26Chaos) TempFile(dir, prefix string) (billy.File, error) {
 var verifC26Paths = []string{
 	"a", "a/b", "a/b/c", "", ".git/x", "a/.git", "a/../b", "/a/b", "a/b/", ".gitmodules",
 	".", "/", ".git", "a/.git/x", "..", "a//b", "a\\b/c", "a/.GITMODULES", "a/.git /x", "a/.g\xe2\x80\x8cit/x",
-	"con", "a/git~1", "a/b/.gitmodules", "git~1/x", "a/.gitmodules ./b",
+	"con", "a/git~1", "a/b/.gitmodules", "git~1/x", "a/.gitmodules ./b", "a/.git/\\",
 }
 
 var verifC26WrapperOps = []string{"create", "open", "openfile", "stat", "lstat", "remove", "rename", "readdir", "symlink", "readlink", "mkdirall", "chroot", "tempfile"}
@@ -284,6 +287,7 @@ func VerifHarness_C26_wrapper() {
 		if readSide && verifC26IsRoot(a) {
 			continue // the worktree root itself
 		}
+		verifrt.Known("C26-dotgit-exemption-trailing-backslash", verifc26.UnsafeOnlyByTrailingBackslashes(a, ntfs, hfs, verifc26.GuardLeading))
 		verifrt.Assert(!verifc26.Unsafe(a, ntfs, hfs, verifc26.GuardLeading), "c26-wrapper-reached-path-stays-inside")
 		for _, anc := range verifC26Ancestors(a) {
 			seen := false
